@@ -463,7 +463,8 @@ func runC18(rc *fw.RunCtx) {
 				ctxs[i], cancels[i] = context.WithCancel(bg)
 			}
 			base := s.Step
-			for j, d := range p.Stale {
+			for _, j := range sortedIntKeys(p.Stale) {
+				d := p.Stale[j]
 				j := j
 				nstale++
 				s.AtStep(base+d, fmt.Sprintf("stale-cancel(ctx%d)", j), func() {
